@@ -128,6 +128,16 @@ def campaign_model(ck: Check, n: int, parts: tuple = ("valid", "tr", "acc"), for
     docs: list[tuple[dict, set]] = [(d, {f"focused:{l}"}) for l, d in focused_docs()]
     for i in range(n):
         docs.append(semgen.gen_doc(rng.fork(str(i)), gen_cfg(i)))
+    # the families of vlib/semfam.py, with the instances built for them (nulls at every nullable place, the members a
+    # nested combination contributes)
+    fam_insts: dict[str, list] = {}
+    frng = ck.rng.fork(fork + "-families")
+    off = frng.below(96)
+    for i in range(max(6, n // 4)):
+        for gen, tag in ((lambda r, k: semfam.nullable_doc(r, k, kinds=semfam.MODELLED_NULLABLE_KINDS), "nullable"), (semfam.nested_allof_doc, "nested")):
+            doc, feats, cand = gen(frng.fork(f"{tag}{i}"), off + i)
+            docs.append((doc, {f"family:{tag}", *feats}))
+            fam_insts[semgen.canon(doc)] = [c for c in cand if semgen.is_valid(doc, c)]
     for doc, feats in docs:
         try:
             ssx = semlean.schema_sx(semlean.body_of(doc), top=True)
@@ -138,6 +148,8 @@ def campaign_model(ck: Check, n: int, parts: tuple = ("valid", "tr", "acc"), for
             c0.hit(f"unmodelled:{str(e)[:30]}")
             continue
         vi = semgen.valid_instances(doc) if (ca or cc) else []
+        if ca or cc:
+            vi = vi[:12] + [x for x in fam_insts.get(semgen.canon(doc), []) if x not in vi[:12]] if semgen.canon(doc) in fam_insts else vi
         muts = []
         for inst in vi[:3]:
             muts += semgen.mutations(doc, inst)
